@@ -1019,6 +1019,91 @@ def resolve_classify(line, res):
     return "%s/%s/%s" % (f["srv"], f["mode"], f["scen"])
 
 
+
+# ---------------- kind sockopts: every configured socket option on every socket of every ip network
+def sockopts_gen(rng, tier):
+    out = []
+    n = 0
+    for nw in ("tcp4", "tcp6", "udp4", "udp6"):
+        for role in ("dial", "listen"):
+            combos = [(7, "lo", 1, 65536, 32768, 5000), (0, "-", 0, 0, 0, 0), (1, "-", 0, 0, 0, 5000), (0, "lo", 0, 0, 0, 0),
+                      (4242, "-", 1, 0, 0, 0), (0, "-", 0, 16384, 0, 0), (0, "-", 0, 0, 16384, 1234), (255, "lo", 0, 0, 0, 5000)]
+            for _ in range(budget(tier, 6, 60)):
+                combos.append((rng.choice([0, 1, 9, 100, 65535]), rng.choice(["lo", "-"]), rng.randrange(2),
+                               rng.choice([0, 8192, 32768, 65536]), rng.choice([0, 8192, 32768, 65536]),
+                               rng.choice([0, 5000, 5000, 1, 30000])))
+            for (mark, dev, rp, rcv, snd, ut) in combos:
+                out.append("k%d net=%s role=%s mark=%d dev=%s rp=%d rcv=%d snd=%d ut=%d" % (n, nw, role, mark, dev, rp, rcv, snd, ut))
+                n += 1
+    # the sockets the router opens itself: listen() and a tcp upstream of initUpstream carry TCP_USER_TIMEOUT = 5000 ms
+    for nw in ("tcp4", "tcp6"):
+        for role in ("rlisten", "rupstream"):
+            for (mark, dev, rp, rcv, snd) in [(0, "-", 0, 0, 0), (7, "lo", 1, 32768, 32768), (3, "-", 0, 0, 0), (0, "lo", 0, 0, 0)]:
+                out.append("k%d net=%s role=%s mark=%d dev=%s rp=%d rcv=%d snd=%d ut=5000" % (n, nw, role, mark, dev, rp, rcv, snd))
+                n += 1
+    return out
+
+
+def sockopts_oracle(line, res):
+    f = gens.fields(line)
+    r = gens.fields(res)
+    what = "%s socket (%s)" % (f["net"], f["role"])
+    if r.get("ctl") != "ok":
+        return "%s: the control callback failed for a valid option set" % what
+    if r.get("nw") != f["net"]:
+        return None
+    if f["mark"] != "0" and r.get("mark") != f["mark"]:
+        return "%s: so_mark %s is configured, the socket has mark %s" % (what, f["mark"], r.get("mark"))
+    if f["dev"] != "-" and r.get("dev") != f["dev"]:
+        return "%s: so_bindtodevice %s is configured, the socket is bound to %s" % (what, f["dev"], r.get("dev"))
+    if f["rp"] == "1" and r.get("rp") != "1":
+        return "%s: so_reuseport is configured and not set" % what
+    for k, name in (("rcv", "so_rcvbuf"), ("snd", "so_sndbuf")):
+        if f[k] != "0" and r.get(k) != f[k]:
+            return "%s: %s %s is configured, the socket has %s" % (what, name, f[k], r.get(k))
+    if f["net"].startswith("tcp") and f["ut"] != "0" and r.get("ut") != f["ut"]:
+        return "%s: TCP_USER_TIMEOUT %s ms was requested, the socket has %s" % (what, f["ut"], r.get("ut"))
+    return None
+
+
+
+# ---------------- kind dohredir: a DoH exchange is ONE request; a redirect is not a DNS answer
+def dohredir_gen(rng, tier):
+    out = []
+    n = 0
+    for (srv, h1) in (("http", 0), ("https", 1), ("https", 0), ("h3", 0)):
+        out.append("q%d srv=%s h1=%d code=200 loc=none" % (n, srv, h1)); n += 1
+        for code in (301, 302, 303, 307, 308):
+            for loc in ("othername", "cleartext", "selfpath", "otherport"):
+                if tier != "thorough" and loc == "otherport" and code not in (302, 308):
+                    continue
+                out.append("q%d srv=%s h1=%d code=%d loc=%s" % (n, srv, h1, code, loc)); n += 1
+        for code in (204, 400, 404, 500, 503):
+            out.append("q%d srv=%s h1=%d code=%d loc=%s" % (n, srv, h1, code, rng.choice(["none", "othername"]))); n += 1
+    return out
+
+
+def dohredir_oracle(line, res):
+    f = gens.fields(line)
+    r = gens.fields(res)
+    what = "%s upstream (%s) whose first answer is status %s%s" % (
+        f["srv"], "HTTP/1.1" if (f["h1"] == "1" or f["srv"] == "http") else ("h3" if f["srv"] == "h3" else "h2"), f["code"],
+        "" if f["loc"] == "none" else " with a Location (%s)" % f["loc"])
+    if r.get("new") != "ok":
+        return "%s could not be constructed" % what
+    if f["code"] == "200":
+        return None if r.get("x") == "ok" else "%s: a good answer was not accepted" % what
+    if r.get("reqs") != "1" or r.get("conns") != "1" or r.get("extra", "0") != "0":
+        return ("%s sent %s requests over %s connection(s)/handshake(s) (+%s tcp) — Hosts seen: %s, TLS server names seen: %s; "
+                "a DoH exchange is ONE request to the configured URL, the Host / server name / scheme never come from "
+                "an answer" % (what, r.get("reqs"), r.get("conns"), r.get("extra"), r.get("hosts"), r.get("snis")))
+    if r.get("hosts") != "doh.c17p.test:%s" % PORT or (f["srv"] != "http" and r.get("snis") != "doh.c17p.test"):
+        return "%s: a request with Host %s / server name %s was seen" % (what, r.get("hosts"), r.get("snis"))
+    if r.get("x") == "ok":
+        return "%s completed the exchange: only a 200 answer is a DNS answer" % what
+    return None
+
+
 PROPS["C17"] = dict(
     kinds=[
         dict(name="addr", gen=addr_gen, oracle=addr_oracle, classify=addr_classify,
@@ -1042,6 +1127,12 @@ PROPS["C17"] = dict(
              nontrivial=lambda l, r: True, timeout=900),
         dict(name="resolve", gen=resolve_gen, oracle=resolve_oracle, classify=resolve_classify,
              nontrivial=lambda l, r: True, timeout=900),
+        dict(name="dohredir", gen=dohredir_gen, oracle=dohredir_oracle,
+             classify=lambda l, r: "%s/%s/%s" % (gens.fields(l)["srv"], gens.fields(l)["code"], gens.fields(l)["loc"]),
+             nontrivial=lambda l, r: True, timeout=600),
+        dict(name="sockopts", gen=sockopts_gen, oracle=sockopts_oracle,
+             classify=lambda l, r: "%s/%s" % (gens.fields(l)["net"], gens.fields(l)["role"]),
+             nontrivial=lambda l, r: True, timeout=300),
     ],
     rule="addr: every helper of internal/upstream/utils.go on grammar strings (IPv4 / domain / IPv6 of 20 catalogue "
          "shapes + random shapes, with and without port, x default port, x dial_addr forms incl. '@name'), the "
@@ -1083,8 +1174,15 @@ PROPS["C17"] = dict(
          "spellings x name as URL host / as dial_addr x {the name moves 127.0.0.1 -> 127.0.0.2 between two connections "
          "and the first server goes away, the name does not resolve at construction but later, the name has two "
          "addresses}: where each exchange arrives against rs_case (resolution per connection); distinct = distinct "
-         "case line, all non-trivial",
-    assumptions=["the process's system trust store is the harness' own (SSL_CERT_FILE / SSL_CERT_DIR set by build/implrun "
+         "case line, all non-trivial; sockopts: the real controlSocket(opts) as Control of net.Dialer / net.ListenConfig on "
+         "tcp4 tcp6 udp4 udp6 x dial / listen x option sets (so_mark, so_bindtodevice lo, so_reuseport, so_rcvbuf, "
+         "so_sndbuf, TCP_USER_TIMEOUT), read back with getsockopt on the very socket, plus the listener socket of "
+         "(*router).listen and the socket of a tcp upstream of initUpstream (5000 ms constant), against sko_control; "
+         "dohredir: http / https (HTTP/1.1, h2) / h3 upstreams whose fake server answers the first request with 200 / "
+         "301 302 303 307 308 + Location (other authority, cleartext, other path, other port) / 204 4xx 5xx: requests, "
+         "handshakes, connections, Hosts and server names seen by the server against doh_case",
+    assumptions=["the process runs as root on Linux (SO_MARK, SO_BINDTODEVICE lo)",
+                 "the process's system trust store is the harness' own (SSL_CERT_FILE / SSL_CERT_DIR set by build/implrun "
                  "before crypto/x509 first loads it; verified at start-up, a failure is a harness error, not an alarm)",
                  "names under c17r.test / c17.test are not known to any resolver but the harness' own",
                  "every address of 127.0.0.0/8 is local (127.0.0.2, .3, .17, .18 are used as distinct peers)",
